@@ -12,6 +12,7 @@ own test suite requires — also a lone `-`) — minus what the text format cann
 space or newline and does not start with `;`; a comment has no newline.
 -/
 import Flussab.Proof.Btor2Document
+import Flussab.Proof.Btor2Wf
 
 namespace Flussab.C03
 open Flussab Flussab.Btor2 PM
@@ -139,10 +140,37 @@ theorem btor2_document_roundtrip (ls : List Line) (hwf : ∀ l ∈ ls, l.wf = tr
   simp only [List.reverse_nil, List.nil_append] at h1 h2
   simp only [h1, h2]
 
-/-- The converse: every line the parser returns is in the domain (so that
-`parse ∘ write ∘ parse = parse`).  Not proved; checked on the implementation for every accepted
-input by the C03 oracle of engine `btor2`.  Not discharged. -/
-def btor2_parsed_is_wf_full : Prop :=
-  ∀ (lr lr' : LR) (l : Line), nextLine.run lr = (.ok (some l), lr') → l.wf = true
+/-- **`btor2_parsed_is_wf`** (the converse): every line `next_line` returns — from any reader
+state, over any input — is in the domain of the round trip: its ids are non-zero `u64`s, its
+indices `u64`s, its constant is accepted by the model of the `TryFrom` validator, a `justice` line
+has exactly the (positive) number of conditions it announces, symbol and comment are of the shape
+the writer can emit. -/
+theorem btor2_parsed_is_wf (lr lr' : LR) (l : Line) (hr : nextLine.run lr = (.ok (some l), lr')) :
+    l.wf = true :=
+  (nextLine_val (lr := lr)).of_run.1 (some l) lr' hr l rfl
+
+/-- **`parse ∘ write ∘ parse = parse`, one line**: a line that was parsed from anywhere is read
+back from the bytes `write_into` emits for it. -/
+theorem btor2_parse_write_parse_line (lr lr' : LR) (l : Line) (hr : nextLine.run lr = (.ok (some l), lr'))
+    (lr2 : LR) (T : VBytes) (h2 : lr2.v.rest = writeLine l ++ T) (hl : lr2.line + 1 ≤ usizeMax)
+    (hp : lr2.v.pos + (writeLine l).length ≤ usizeMax) :
+    ∃ lr2', nextLine.run lr2 = (.ok (some l), lr2') := by
+  obtain ⟨lr2', h, _⟩ := btor2_roundtrip l (btor2_parsed_is_wf lr lr' l hr) lr2 T h2 hl hp
+  exact ⟨lr2', h⟩
+
+/-- **`parse ∘ write ∘ parse = parse`, whole documents**: the lines a parse of ANY input handed out
+(whatever its final outcome, whatever the kind of source), written one after the other by
+`write_into`, are parsed back to exactly those lines with a clean end. -/
+theorem btor2_parse_write_parse (b : VBytes) (fault : Bool)
+    (hsize : (((parseAll (LR.init b fault)).1.map writeLine).flatten).length < 2 ^ 63) :
+    parseAll (LR.init ((parseAll (LR.init b fault)).1.map writeLine).flatten false) =
+      ((parseAll (LR.init b fault)).1, none) := by
+  refine btor2_document_roundtrip _ ?_ hsize
+  intro l hl
+  unfold parseAll at hl
+  have := driveLines_wf ((LR.init b fault).v.rest.length + 2) [] (LR.init b fault) (by simp)
+  rcases hd : driveLines ((LR.init b fault).v.rest.length + 2) [] (LR.init b fault) with ⟨items, fin, lr'⟩
+  rw [hd] at this hl
+  exact this l hl
 
 end Flussab.C03
